@@ -10,8 +10,10 @@ def jobs(tier):
     # The enumerated families are small enough (16 364 cases, 1.64e7 library calls, ~30 core-seconds under
     # ASan) to be walked completely in both tiers; maxtime is only a safety cap for a loaded machine.
     return [
-        Job(T, "flt-asan", "enumerate", workers=W, enum_stride=1, maxtime=300 if q else 900),
-        Job(T, "flt-asan", "random", workers=W, cases=24000 if q else 300000, maxtime=240 if q else 2400),
+        Job(T, "flt-asan", "enumerate", workers=W, enum_stride=1, maxtime=300 if q else 900, refs=("ref-flt",)),
+        Job(T, "flt-asan", "random", workers=W, cases=24000 if q else 300000, maxtime=240 if q else 2400, refs=("ref-flt",)),
+        # fixed-point build of the tree: its own pitch estimator (silk/fixed) in the pitch round trip, and the shared decoder code compiled as fixed point
+        Job(T, "fix-asan", "random", workers=W, cases=6000 if q else 100000, maxtime=120 if q else 1200, refs=("ref-flt",), seed_salt=9),
     ]
 
 
@@ -20,8 +22,10 @@ PROP = dict(
     rule="cases = (a) enumerated blocks of NLSF index vectors (stage-1 vector x residual pattern), gain (previous index, conditional) pairs "
          "and pitch (rate, sub-frames, contour) triples, each looping over its inner index range; (b) generated single index vectors, decoder "
          "histories through silk_decode_parameters (packets of 1-3 frames, rate / frame-size switches, concealed frames before a packet, "
-         "interpolation factors 0..4), range-decoded random payloads through silk_decode_indices, gain-index chains, pitch indices, and "
-         "encoder round trips (silk_gains_quant; silk_process_NLSFs vs silk_decode_parameters). Non-trivial = a protective mechanism was "
+         "interpolation factors 0..4), range-decoded random payloads through silk_decode_indices, gain-index chains, pitch indices, "
+         "histories through the real silk_decode_frame (1-8 packets of random payload, resets, rate switches, lost packets, LBRR requests) compared sample by "
+         "sample with the frozen snapshot's silk_decode_frame on the same calls, and "
+         "encoder round trips (silk_gains_quant; silk_process_NLSFs vs silk_decode_parameters; the pitch estimator's lags vs silk_decode_pitch on drifting periodic signals). Non-trivial = a protective mechanism was "
          "exercised (NLSF stabiliser or Q15 clamp active by the RFC reconstruction model, LPC output differs from the double-precision "
          "conversion by more than the tolerance = bandwidth expansion / 16-bit fit, gain index limited or double-stepped, lag clamped) or the "
          "case carries inter-frame history (interpolated LPC, LPC after loss, rate switch, voiced range-decoded frames) or an NLSF round trip; "
@@ -33,7 +37,8 @@ PROP = dict(
         T + "/lpc-compared-with-double-model": 1000, T + "/interpolated-lpc": 400, T + "/lpc-after-loss": 400, T + "/rate-switch": 400,
         T + "/gain-index-limited": 2000, T + "/gain-double-step": 500, T + "/lag-clamped": 500, T + "/bitstream-voiced": 500,
         T + "/bitstream-delta-lag": 50, T + "/family:rt-nlsf": 1000, T + "/rt-nlsf-interpolated": 100, T + "/family:rt-gains": 500,
-        T + "/family:gain-chain": 500}},
+        T + "/family:gain-chain": 500, T + "/family:frames-history": 1000, T + "/frames-first-decode-after-reset-and-loss": 50, T + "/frames-interpolated": 100,
+        T + "/family:rt-pitch": 1000, T + "/rt-pitch-voiced": 500, T + "/rt-pitch-lag-at-limit": 30}},
     exhaustive_parts={
         "thorough": [
             "NLSF NB/MB codebook: all 32 stage-1 vectors x all residual vectors in {-10,0,10}^10 (1 889 568 vectors): decode, NLSF2A, inverse gain",
